@@ -105,9 +105,12 @@ def pieces_of_arguments(e):
     return None
 
 
-def pieces_of_string(e):
-    """expression of a String produced by format!() -> pieces"""
+def pieces_of_string(e, an=None):
+    """expression of a String produced by format!() (or, given the analysis,
+    assembled in a local String buffer) -> pieces"""
     e = strip(e)
+    if e.k == "mutated" and an is not None:
+        return pieces_of_string_buffer(an, e.a[1])
     if e.k == "call" and e.a[0].name == "must_use" and e.a[1]:
         e = strip(e.a[1][0])
     if e.k == "call" and e.a[0].fn in ("std::fmt::format", "alloc::fmt::format") and e.a[1]:
@@ -128,6 +131,8 @@ def write_fmt_pieces(e):
         s = strip(e.a[1][1])
         if s.k == "const" and isinstance(s.a[0], bytes):
             return [("lit", s.a[0])]
+        # f.write_str(&s) writes s as {} would
+        return [("arg", "display", s, "str", {})]
     return None
 
 
@@ -140,14 +145,20 @@ def pieces_of_string_buffer(an, local):
         return None
     from kernel import unmut
     d = unmut(d)
-    if not (d.k == "call" and d.a[0].name in ("new", "with_capacity") and "String" in d.a[0].fn):
-        return None
     out = []
+    if d.k == "call" and d.a[0].name in ("from", "to_string", "to_owned", "into") and d.a[1] and strip(d.a[1][0]).k == "const" and isinstance(strip(d.a[1][0]).a[0], bytes):
+        out.append(("lit", strip(d.a[1][0]).a[0]))
+    elif not (d.k == "call" and d.a[0].name in ("new", "with_capacity") and "String" in d.a[0].fn):
+        return None
     for mu in shapes.mutations(an, local):
         if mu["kind"] != "mutcall":
             return None
         t = mu["term"]
         c = t.callee
+        if c is not None and c.name == "encode_string" and (c.trait or "").endswith("base64::Engine") and len(t.args) == 3 and mu.get("arg") == 2:
+            # ENGINE.encode_string(bytes, &mut buf) appends what ENGINE.encode(bytes) returns
+            out.append(("arg", "display", an.call_expr(t, mu["bb"]), "String", {}))
+            continue
         if c is None or c.name not in ("push_str", "push") or "String" not in c.fn or len(t.args) != 2:
             return None
         a = strip(an.operand_expr(t.args[1], mu["bb"], mu["idx"]))
